@@ -93,6 +93,7 @@ def run(ctx):
   model_check(ctx, "MCQ_Q1i.cfg", ENV_Q)
   model_check(ctx, "MCQ_Q1t.cfg", ENV_Q + ["QIdle"])
   model_check(ctx, "MC_Ti.cfg", ["StartTimer", "CancelTimer", "Cycle", "HubSelect"])
+  model_check(ctx, "MCQ_S2i.cfg", ["Setup", "Cycle", "HubSelect"])
   if not quick:
     model_check(ctx, "MC_Tt.cfg", ["StartTimer", "CancelTimer", "Cycle", "HubSelect", "Idle"])
     model_check(ctx, "MC_Q1i.cfg", ["Cycle", "HubSelect", "WakeST", "WakeDirect", "FdSet", "Advance"])
@@ -102,8 +103,13 @@ def run(ctx):
   model_check(ctx, "LIVE_t.cfg", cov=False)
   # 2. spec -> code
   b = export_edges(ctx, "EX_Q1i.cfg", pi, cap=6000 if quick else None)
-  negative_control(ctx, max(b, key=len), pi)
+  okb = [b[i] for i in core.replay.last_ok if any(s["a"] == "Cycle" and s["exp"]["ran"] for s in b[i])]
+  if okb:
+    negative_control(ctx, max(okb, key=len), pi)
   export_edges(ctx, "EX_Q1t.cfg", pt, cap=6000 if quick else None)
+  # every 2-op program of the full vocabulary on a single task (value/exception delivery at each resume)
+  export_edges(ctx, "EX_S2i.cfg", pi, cap=8000 if quick else None)
+  export_edges(ctx, "EX_S2t.cfg", pt, cap=4000 if quick else None)
   export_edges(ctx, "EX_Ti.cfg", pi, cap=3000 if quick else None)
   export_edges(ctx, "EX_Tt.cfg", pt, cap=3000 if quick else None)
   if not quick:
